@@ -79,6 +79,8 @@ type Cfg struct {
 	PortEnd      uint16
 	NoPortRange  bool // do not call SetPortRange at all
 	RunConfig    router.RunConfig
+	NoStart      bool   // do not mark the data plane running (the harness calls the real Run)
+	ConnFactory  func(l, r netip.AddrPort) router.BatchConn // scripted connections (scheduler harness)
 	InternalAddr string // default 10.0.0.1:30042
 	BFDCfg       *control.BFD
 }
@@ -107,7 +109,7 @@ func Build(c Cfg) (*Router, error) {
 		c.InternalAddr = "10.0.0.1:30042"
 	}
 	dp := router.VerifNewDP(c.RunConfig, c.AuthSCMP)
-	op := &Opener{ReuseLocal: c.ReuseLocal}
+	op := &Opener{ReuseLocal: c.ReuseLocal, Conn: c.ConnFactory}
 	dp.VerifSetConnOpener("udpip", op)
 	if err := dp.SetIA(c.IA); err != nil {
 		return nil, err
@@ -162,7 +164,9 @@ func Build(c Cfg) (*Router, error) {
 	if !c.NoPortRange {
 		dp.SetPortRange(c.PortStart, c.PortEnd)
 	}
-	dp.VerifStart()
+	if !c.NoStart {
+		dp.VerifStart()
+	}
 	return &Router{VerifDP: dp, Cfg: c, Opener: op}, nil
 }
 
